@@ -248,7 +248,7 @@ func (c *Ctx) analyseGenerator(a *genAnchors, fwd map[*types.Func]bool, pkg *pac
 				o := ctxOffset{known: true, newFrame: true}
 				for _, el := range t.Elts {
 					if kv, ok := el.(*ast.KeyValueExpr); ok {
-						if k, ok := kv.Key.(*ast.Ident); ok && k.Name == "am" {
+						if k, ok := kv.Key.(*ast.Ident); ok && k.Name == c.fieldRoles(a).am {
 							o.amKey, _ = exprKey(info, kv.Value)
 							o.amText = nodeStr(c.Fset, kv.Value)
 						}
